@@ -1,7 +1,8 @@
 /-
   Line-protocol handlers of property C06 (driver side, core Lean only):
     lpass <GoPassName[:k1,k2]> <schemas-vir>   -> ok <vir> | err | panic
-    chain <lang> <schemas-vir>                 -> ok <vir> | err | panic
+    chain <lang> <schemas-vir>                 -> ok <vir> | err | panic | shared   (shared: cross-pass pointer
+                                                  sharing the tree model does not cover, see Chain.chainShared)
     nf <lang> <schemas-vir>                    -> true | false <conjunct>,<conjunct>…
     ucc <"string">                             -> <"UpperCamelCase(string)">
     c06witness list | c06witness <name>        -> ok <names…> | <lang> <conjunct> <schemas-vir>
@@ -36,7 +37,8 @@ def chainLine (rest : String) : String :=
     match Cog.Gen.Chains.chainOf lang with
     | none => "unknown-language"
     | some ps =>
-      Vir.outcomeOut Vir.schemasOut (runChain ps ss)
+      if chainShared ps ss then "shared"
+      else Vir.outcomeOut Vir.schemasOut (runChain ps ss)
 
 def nfLine (rest : String) : String :=
   withSchemas rest fun lang ss =>
